@@ -44,7 +44,7 @@ ASSUMPTIONS = [
 ]
 REAL_STUB = {"real": ["onnx_ir.serde (to_proto / from_proto)", "onnx_ir core"], "stub": [], "harness_extension_points": ["LazyTensor thunks"]}
 
-EDITS = ["drop_type", "drop_shape", "empty_optional_output", "none_input", "rename_value", "rename_node", "add_node", "remove_unused", "doc", "metadata", "attr_set", "attr_del", "retensor", "symbolic_shape", "denotation", "seq_type", "shadow_name", "shadow_name", "share_tensor", "share_tensor"]
+EDITS = ["drop_type", "drop_shape", "empty_optional_output", "none_input", "rename_value", "rename_node", "add_node", "remove_unused", "doc", "metadata", "attr_set", "attr_del", "retensor", "symbolic_shape", "symbolic_shape", "denotation", "denotation", "seq_type", "shadow_name", "shadow_name", "share_tensor", "share_tensor"]
 
 
 def gen_case(run_seed: int, tier: str, index: int = 0) -> dict:
@@ -216,10 +216,11 @@ def apply_edit(model, edit, fresh) -> str:
         tgt = inner_vals[(a >> 4) % len(inner_vals)]
         tgt.name = outer[(b >> 4) % len(outer)].name
     elif kind == "symbolic_shape" and v is not None:
-        v.shape = ir.Shape(["batch", 3, None][: 1 + b % 3])
+        v.shape = [ir.Shape(["batch", 3, None][: 1 + b % 3]), ir.Shape([None, 3]), ir.Shape([None]), ir.Shape([2, None, "W"]), ir.Shape([None, 3, "W"], denotations=["DATA_BATCH", None, "DATA_FEATURE"])][(b // 3) % 5]
     elif kind == "denotation" and v is not None:
-        if v.shape is not None and len(v.shape) and not v.shape.frozen:
-            v.shape.set_denotation(0, "DATA_BATCH")
+        if v.shape is not None and len(v.shape):
+            # any dimension kind (sized, named, unknown) can carry a denotation
+            v.shape.set_denotation((a >> 3) % len(v.shape), ["DATA_BATCH", "DATA_CHANNEL", "DATA_FEATURE"][(a >> 7) % 3])
         if v.type is not None:
             try:
                 v.type.denotation = "TENSOR"
